@@ -2,7 +2,7 @@
    to the lookup list it was rendered from. *)
 From Coq Require Import List NArith ZArith Bool Arith Lia ZifyBool ZifyNat ZifyN.
 From Gen Require Import C19.
-From C19 Require Import Model Wf Util Render.
+From C19 Require Import Model Wf Util Render ProofsExplain.
 Import ListNotations.
 Import K.
 Local Open Scope N_scope.
@@ -1010,7 +1010,7 @@ Section Parse.
     exists ts', read_value_record endl fuel (value_toks a l ++ ts0) = POk (a, ts') /\ norm ts' = norm ts0.
   Proof.
     intros a l fuel ts0 Hv Ht Hf. destruct a as [v|].
-    2:{ exists ts0. split; auto. reflexivity. }
+    2:{ exists ts0. split; reflexivity. }
     cbn [vrec_ok] in Hv. repeat (apply andb_true_iff in Hv; destruct Hv as [Hv ?]).
     apply negb_true_iff in Hv. exists (norm ts0). split; [|apply norm_idem].
     unfold read_value_record, value_toks in *. destruct v as [x y dx]. cbn [v_x v_y v_dx] in *.
@@ -1019,28 +1019,371 @@ Section Parse.
       (unfold bind at 1; rewrite optional_ident_miss by reflexivity);
       unfold bind at 1.
     - destruct fuel as [|[|fu]]; try (cbn in Hf; lia).
-      rewrite rvl_dx by auto. rewrite rvl_end by auto. unfold ret, vrec_norm. cbn [v_x v_y v_dx mkV].
+      rewrite rvl_dx by auto. rewrite rvl_end by auto. unfold ret, vrec_norm. cbn [v_x v_y v_dx].
       rewrite Ed. apply Z.eqb_eq in Ex, Ey. subst. reflexivity.
     - destruct fuel as [|[|fu]]; try (cbn in Hf; lia).
-      rewrite rvl_y by auto. rewrite rvl_end by auto. unfold ret, vrec_norm. cbn [v_x v_y v_dx mkV].
+      rewrite rvl_y by auto. rewrite rvl_end by auto. unfold ret, vrec_norm. cbn [v_x v_y v_dx].
       rewrite Ey. apply Z.eqb_eq in Ex, Ed. subst. reflexivity.
     - destruct fuel as [|[|[|fu]]]; try (cbn in Hf; lia).
       rewrite rvl_y by auto. rewrite rvl_dx by auto. rewrite rvl_end by auto.
-      unfold ret, vrec_norm. cbn [v_x v_y v_dx mkV].
+      unfold ret, vrec_norm. cbn [v_x v_y v_dx].
       rewrite Ey. apply Z.eqb_eq in Ex. subst. reflexivity.
     - destruct fuel as [|[|fu]]; try (cbn in Hf; lia).
-      rewrite rvl_x by auto. rewrite rvl_end by auto. unfold ret, vrec_norm. cbn [v_x v_y v_dx mkV].
+      rewrite rvl_x by auto. rewrite rvl_end by auto. unfold ret, vrec_norm. cbn [v_x v_y v_dx].
       rewrite Ex. apply Z.eqb_eq in Ey, Ed. subst. reflexivity.
     - destruct fuel as [|[|[|fu]]]; try (cbn in Hf; lia).
       rewrite rvl_x by auto. rewrite rvl_dx by auto. rewrite rvl_end by auto.
-      unfold ret, vrec_norm. cbn [v_x v_y v_dx mkV].
+      unfold ret, vrec_norm. cbn [v_x v_y v_dx].
       rewrite Ex. apply Z.eqb_eq in Ey. subst. reflexivity.
     - destruct fuel as [|[|[|fu]]]; try (cbn in Hf; lia).
       rewrite rvl_x by auto. rewrite rvl_y by auto. rewrite rvl_end by auto.
-      unfold ret, vrec_norm. cbn [v_x v_y v_dx mkV].
+      unfold ret, vrec_norm. cbn [v_x v_y v_dx].
       rewrite Ex. apply Z.eqb_eq in Ed. subst. reflexivity.
     - destruct fuel as [|[|[|[|fu]]]]; try (cbn in Hf; lia).
       rewrite rvl_x by auto. rewrite rvl_y by auto. rewrite rvl_dx by auto. rewrite rvl_end by auto.
-      unfold ret, vrec_norm. cbn [v_x v_y v_dx mkV]. rewrite Ex. reflexivity.
+      unfold ret, vrec_norm. cbn [v_x v_y v_dx]. rewrite Ex. reflexivity.
+  Qed.
+
+  (* ---- GPOS1 ---- *)
+  Lemma norm_eq_cons : forall ts t r, norm ts = t :: r -> ts = t :: r.
+  Proof.
+    intros [|t1 [|t2 r']] t r H; cbn in H; auto. destruct (is_syn_eof endl t1); [discriminate|auto].
+  Qed.
+
+  Lemma peek_typ_same : forall a b, norm a = norm b -> ttyp (peek_tok endl a) = ttyp (peek_tok endl b).
+  Proof. intros a b H. rewrite <- (peek_norm_typ a), <- (peek_norm_typ b), H. reflexivity. Qed.
+
+  Lemma set_key_new : forall {B} g (v : B) res, assoc g res = None -> set_key g v res = res ++ [(g, v)].
+  Proof.
+    intros B g v res. induction res as [|[k x] r IH]; intros H; cbn in *; auto.
+    destruct (k =? g); [discriminate|]. rewrite IH by auto. reflexivity.
+  Qed.
+
+  (* what may follow a GPOS1 subtable: "||", "\n" or the end *)
+  Definition ends_sub (ts0 : list token) : Prop :=
+    let ty := ttyp (peek_tok endl ts0) in
+    ityp_eqb ty TIdent = false /\ ityp_eqb ty TComma = false.
+
+  Lemma ends_sub_same : forall a b, norm a = norm b -> ends_sub b -> ends_sub a.
+  Proof. intros a b H [X Y]. unfold ends_sub. rewrite (peek_typ_same a b H). auto. Qed.
+
+  Lemma gpos1_2_loop_ok : forall es l fuel res ts0,
+    es <> [] ->
+    ascending (map fst es) ->
+    Forall (fun e => fst e < num_glyphs F /\ vrec_ok (snd e) = true) es ->
+    (forall d e, In d res -> In e es -> fst d < fst e) ->
+    ends_sub ts0 ->
+    (length (entries_toks U F value_toks es true l ++ ts0) < fuel)%nat ->
+    exists ts', gpos1_2_loop F endl fuel res (entries_toks U F value_toks es true l ++ ts0)
+                = POk (res ++ es, ts') /\ norm ts' = norm ts0.
+  Proof.
+    induction es as [|[g x] es IH]; intros l fuel res ts0 Hn Ha He Hres Hts Hf; [congruence|].
+    destruct fuel as [|[|fu]]; try (cbn in Hf; fuel_tac).
+    inversion He as [|? ? Hg Hes]; subst. destruct Hg as [Hg Hx]. cbn [fst snd] in Hg, Hx.
+    cbn [entries_toks app gpos1_2_loop]. rewrite <- !app_assoc. cbn [app].
+    unfold bind at 1. rewrite rgl_one by (auto; reflexivity).
+    unfold bind at 1. rewrite required_hit by reflexivity.
+    assert (Hkey : assoc g res = None).
+    { apply assoc_none_lt. apply Forall_forall. intros d Hd. apply (Hres d (g, x)); auto. left. reflexivity. }
+    destruct es as [|e' es'].
+    - cbn [entries_toks app].
+      destruct (value_ok x l (S (S fu)) ts0 Hx (proj1 Hts)) as (ts' & Ev & En);
+        [clear - Hf; cbn [entries_toks] in Hf; fuel_tac|].
+      unfold bind at 1. rewrite Ev. unfold bind at 1.
+      destruct (ends_sub_same ts' ts0 En Hts) as [_ Hc].
+      rewrite optional_miss_n by auto. unfold ret. rewrite set_key_new by auto.
+      eexists. split; [reflexivity|]. rewrite norm_idem. exact En.
+    - rewrite entries_toks_false. cbn [app].
+      destruct (value_ok x l (S (S fu)) (t_comma l :: entries_toks U F value_toks (e' :: es') true l ++ ts0) Hx eq_refl)
+        as (ts' & Ev & En); [clear - Hf; cbn [entries_toks] in Hf; fuel_tac|].
+      rewrite norm_cons_ne in En by reflexivity. apply norm_eq_cons in En. subst ts'.
+      unfold bind at 1. rewrite Ev. unfold bind at 1. rewrite optional_hit by reflexivity.
+      unfold bind at 1.
+      assert (Hopt : optional endl TEOL (entries_toks U F value_toks (e' :: es') true l ++ ts0)
+                     = POk (false, entries_toks U F value_toks (e' :: es') true l ++ ts0)).
+      { destruct e' as [g' x']. cbn [entries_toks app].
+        destruct (after_flags_props _ (after_flags_glyph_tok g' l)) as [A B].
+        apply optional_miss; auto. }
+      rewrite Hopt. rewrite set_key_new by auto.
+      destruct (IH l (S fu) (res ++ [(g, x)]) ts0) as (ts'' & E2 & N2); auto.
+      + discriminate.
+      + apply (ascending_tail g). exact Ha.
+      + intros d e Hd Hin. apply in_app_or in Hd. destruct Hd as [Hd|Hd].
+        * apply Hres; auto. right. exact Hin.
+        * destruct Hd as [Hd|[]]. subst d. cbn [fst].
+          assert (HL : Forall (fun y => g < y) (map fst (e' :: es')))
+            by (apply (ascending_lt_all (map fst (e' :: es')) g); exact Ha).
+          rewrite Forall_forall in HL. apply HL. apply in_map. exact Hin.
+      + clear - Hf. destruct e' as [g' x']. cbn [entries_toks] in *. fuel_tac.
+      + exists ts''. split; auto. rewrite <- app_assoc in E2. exact E2.
+  Qed.
+
+  Definition gpos_sub_ok (s : subtable) : Prop := is_gpos s = true /\ sub_wf F s = true.
+
+  Lemma sub_toks_head_gpos : forall s l, gpos_sub_ok s -> exists t ts,
+    sub_toks U F s l = t :: ts /\ after_flags t = true.
+  Proof.
+    intros s l [Hg Hw]. destruct s; try discriminate; unfold sub_toks.
+    - unfold gs_toks. cbn [app]. eexists. eexists. split; reflexivity.
+    - cbn [sub_wf] in Hw. split_wf Hw.
+      assert (Hl : length cov = length adj) by (apply Nat.eqb_eq; assumption).
+      assert (Hn : cov <> []) by (destruct cov; [discriminate|congruence]).
+      destruct (combine_cons cov adj Hn Hl) as (g & r & cov' & adj' & Ec & Er & Ecb). rewrite Ecb.
+      cbn [entries_toks app]. eexists. eexists. split; [reflexivity|apply after_flags_glyph_tok].
+  Qed.
+
+  (* one subtable, as read inside gpos1_loop *)
+  Lemma gpos1_sub_ok : forall s l fuel ts0, gpos_sub_ok s -> ends_sub ts0 ->
+    (length (sub_toks U F s l ++ ts0) < fuel)%nat ->
+    exists ts',
+      (nxt <- read endl ;; unread endl nxt ;;;
+       (if ityp_eqb (ttyp nxt) TLBr then
+          fr <- read_glyph_set F endl fuel ;;
+          required endl TArrow ;;;
+          adj <- read_value_record endl fuel ;;
+          ret (Gpos1_1 (uniq (isort fr)) adj)
+        else
+          res <- gpos1_2_loop F endl fuel [] ;;
+          ret (Gpos1_2 (build_cov res) (map (fun g => get_or0 None g res) (build_cov res))))) (sub_toks U F s l ++ ts0)
+      = POk (s, ts') /\ norm ts' = norm ts0.
+  Proof.
+    intros s l fuel ts0 [Hg Hw] Hts Hf. destruct s; try discriminate; unfold sub_toks in *.
+    - (* Gpos1_1 *)
+      cbn [sub_wf] in Hw. split_wf Hw.
+      assert (Ha : ascending cov) by (apply ascendingb_spec; assumption).
+      assert (Eg : (gs_toks U F cov l ++ [t_arrow l] ++ value_toks adj l) ++ ts0
+                   = tk TLBr [91] l :: (gl_toks U F cov l ++ tk TRBr [93] l :: t_arrow l :: value_toks adj l ++ ts0)).
+      { unfold gs_toks. cbn [app]. rewrite <- !app_assoc. reflexivity. }
+      assert (Eg2 : tk TLBr [91] l :: (gl_toks U F cov l ++ tk TRBr [93] l :: t_arrow l :: value_toks adj l ++ ts0)
+                    = gs_toks U F cov l ++ (t_arrow l :: value_toks adj l ++ ts0)).
+      { unfold gs_toks. cbn [app]. rewrite <- app_assoc. reflexivity. }
+      rewrite Eg in *. unfold bind at 1. cbn [read]. unfold bind at 1.
+      rewrite unread_cons by reflexivity. cbn [ttyp ityp_eqb].
+      rewrite Eg2. unfold bind at 1.
+      rewrite rgs_ok; auto; [|clear - Hf; fuel_tac].
+      unfold bind at 1. rewrite required_hit by reflexivity.
+      destruct (value_ok adj l fuel ts0) as (ts' & Ev & En); auto; [apply Hts|clear - Hf; fuel_tac|].
+      unfold bind at 1. rewrite Ev. unfold ret. rewrite sort_uniq_ascending by auto.
+      exists ts'. auto.
+    - (* Gpos1_2 *)
+      cbn [sub_wf] in Hw. split_wf Hw.
+      assert (Ha : ascending cov) by (apply ascendingb_spec; assumption).
+      assert (Hc : Forall (fun g => g < num_glyphs F) cov) by (apply gids_ok_forall; assumption).
+      assert (Hl : length cov = length adj) by (apply Nat.eqb_eq; assumption).
+      assert (Hn : cov <> []) by (destruct cov; [discriminate|congruence]).
+      destruct (combine_cons cov adj Hn Hl) as (g & r & cov' & adj' & Ec & Er & Ecb).
+      assert (Eh : exists t ts, entries_toks U F value_toks (combine cov adj) true l ++ ts0 = t :: ts
+                               /\ ityp_eqb (ttyp t) TEOF = false /\ ityp_eqb (ttyp t) TLBr = false).
+      { rewrite Ecb. cbn [entries_toks app]. eexists. eexists. split; [reflexivity|].
+        destruct (glyph_tok_typ g l) as [E|[E|E]]; rewrite E; auto. }
+      destruct Eh as (t & ts & Et & Et1 & Et2). rewrite Et.
+      unfold bind at 1. cbn [read]. unfold bind at 1. rewrite unread_cons by auto. rewrite Et2.
+      rewrite <- Et.
+      destruct (gpos1_2_loop_ok (combine cov adj) l fuel [] ts0) as (ts' & El & En); auto.
+      + rewrite Ecb. discriminate.
+      + rewrite map_fst_combine by auto. exact Ha.
+      + apply (Forall_combine (fun g => g < num_glyphs F) (fun a => vrec_ok a = true)); auto.
+        apply forallb_Forall. assumption.
+      + intros d e [].
+      + unfold bind at 1. rewrite El. cbn [app]. unfold ret. cbv zeta.
+        rewrite build_cov_combine by auto. rewrite map_get_combine by auto. exists ts'. auto.
+  Qed.
+
+  Lemma loop_body_assoc : forall {A B C D} (m : P A) (u : A -> P B) (i : A -> P C) (k : C -> P D) ts,
+    (a <- m ;; u a ;;; (c <- i a ;; k c)) ts = (c <- (a <- m ;; u a ;;; i a) ;; k c) ts.
+  Proof.
+    intros. unfold bind. destruct (m ts) as [[a ts1]| | | |]; auto.
+    destruct (u a ts1) as [[b ts2]| | | |]; auto.
+  Qed.
+
+  Definition ends_gpos (ts0 : list token) : Prop :=
+    let ty := ttyp (peek_tok endl ts0) in
+    ityp_eqb ty TIdent = false /\ ityp_eqb ty TComma = false /\ ityp_eqb ty TOr = false.
+
+  Lemma ends_gpos_sub : forall ts0, ends_gpos ts0 -> ends_sub ts0.
+  Proof. intros ts0 (A & B & C). split; auto. Qed.
+
+  Lemma gpos1_loop_ok : forall subs hdr s l fuel acc ts0,
+    Forall gpos_sub_ok (s :: subs) -> ends_gpos ts0 ->
+    (length (sub_toks U F s l ++ subs_toks U F hdr subs false l ++ ts0) < fuel)%nat ->
+    exists ts', gpos1_loop F endl fuel acc (sub_toks U F s l ++ subs_toks U F hdr subs false l ++ ts0)
+                = POk (acc ++ s :: subs, ts') /\ norm ts' = norm ts0.
+  Proof.
+    induction subs as [|s' r IH]; intros hdr s l fuel acc ts0 Hs Hts Hf;
+      (destruct fuel as [|fu]; [cbn in Hf; lia|]);
+      inversion Hs as [|? ? Hs1 Hsr]; subst; cbn [gpos1_loop]; rewrite loop_body_assoc.
+    - cbn [subs_toks app] in *.
+      destruct (gpos1_sub_ok s l (S fu) ts0 Hs1 (ends_gpos_sub _ Hts) Hf) as (ts' & Es & En).
+      unfold bind at 1. rewrite Es. unfold bind at 1.
+      destruct Hts as (A & B & C). rewrite optional_miss_n by (rewrite (peek_typ_same ts' ts0 En); exact C).
+      unfold ret. eexists. split; [reflexivity|]. rewrite norm_idem. exact En.
+    - cbn [subs_toks app] in *. rewrite <- !app_assoc in *. cbn [app] in *.
+      set (X := tk TOr [124; 124] l :: tk TEOL [10] l :: sub_toks U F s' (l + 1) ++ subs_toks U F hdr r false (l + 1) ++ ts0) in *.
+      assert (HX : ends_sub X) by (split; reflexivity).
+      destruct (gpos1_sub_ok s l (S fu) X Hs1 HX Hf) as (ts' & Es & En).
+      unfold X in En. rewrite norm_cons2 in En. apply norm_eq_cons in En. subst ts'.
+      unfold bind at 1. rewrite Es. unfold bind at 1. rewrite optional_hit by reflexivity.
+      unfold bind at 1. rewrite optional_hit by reflexivity.
+      destruct (IH hdr s' (l + 1) fu (acc ++ [s]) ts0 Hsr Hts) as (ts'' & E2 & N2).
+      + clear - Hf. unfold X in Hf. fuel_tac.
+      + exists ts''. split; auto. rewrite E2. rewrite <- app_assoc. reflexivity.
+  Qed.
+
+  Lemma read_gpos1_ok : forall lk l fuel ts0,
+    gpos_lookup_wf F lk = true -> ends_gpos ts0 ->
+    (length (lookup_toks U F k_GPOS lk l ++ ts0) < fuel)%nat ->
+    exists ts', read_gpos1 F endl fuel (tl (lookup_toks U F k_GPOS lk l) ++ ts0) = POk (lk, ts')
+                /\ norm ts' = norm ts0.
+  Proof.
+    intros lk l fuel ts0 W Hts Hf. unfold gpos_lookup_wf in W. split_wf W.
+    destruct lk as [ty fl subs]. cbn [l_type l_flags l_subs] in *.
+    apply N.eqb_eq in H1. subst ty.
+    destruct subs as [|s subs]; [discriminate|].
+    assert (Hs : Forall gpos_sub_ok (s :: subs)).
+    { apply forallb_Forall in H. eapply Forall_impl; [|exact H]. cbn. intros a Ha.
+      apply andb_true_iff in Ha. split; tauto. }
+    unfold lookup_toks, hdr_toks in *. cbn [l_type l_flags l_subs subs_toks app tl] in *.
+    rewrite <- !app_assoc in *. cbn [app] in *.
+    unfold read_gpos1. unfold bind at 1.
+    inversion Hs as [|? ? Hs1 _]; subst.
+    destruct (sub_toks_head_gpos s l Hs1) as (t & ts & Et & At).
+    rewrite header_ok'; auto; [| |clear - Hf; fuel_tac].
+    2:{ rewrite Et. cbn [app]. eauto. }
+    destruct (gpos1_loop_ok subs (fun l0 => tk TIdent (k_GPOS ++ digits 1) l0 :: tk TColon [58] l0 :: flag_toks fl l0) s l fuel [] ts0 Hs Hts)
+      as (ts' & El & En).
+    - clear - Hf. fuel_tac.
+    - unfold bind at 1. rewrite El. cbn [app]. unfold ret, mk_lookup. exists ts'. auto.
+  Qed.
+
+  (* ---- parse(): whole descriptions ---- *)
+  Lemma ends_list_eol : forall l, ends_list (tk TEOL [10] l) = true.
+  Proof. reflexivity. Qed.
+
+  Lemma gsub_parse_ok : forall ll l fuel acc e,
+    Forall (fun lk => gsub_lookup_wf F lk = true) ll ->
+    (length (gsub_toks U F ll l ++ [tk TEOF [] e]) < fuel)%nat ->
+    parse_loop F endl fuel acc (gsub_toks U F ll l ++ [tk TEOF [] e]) = POk (acc ++ ll, []).
+  Proof.
+    induction ll as [|lk r IH]; intros l fuel acc e H Hf.
+    - destruct fuel; [cbn in Hf; lia|]. cbn. rewrite app_nil_r. reflexivity.
+    - inversion H as [|? ? Hlk Hr]; subst.
+      destruct fuel as [|[|fu]]; try (cbn in Hf; fuel_tac).
+      unfold gsub_lookup_wf in Hlk. apply andb_true_iff in Hlk. destruct Hlk as [Hfl Hlk].
+      destruct lk as [ty fl subs]. cbn [l_type l_flags l_subs] in *.
+      destruct subs as [|s [|s' subs']]; try discriminate.
+      split_wf Hlk.
+      match goal with Hx : (sub_type s =? ty) = true |- _ => apply N.eqb_eq in Hx; subst ty end.
+      assert (Hwf : sub_wf F s = true) by assumption.
+      cbn [gsub_toks l_subs l_type l_flags] in *. unfold lookup_toks, hdr_toks in *.
+      cbn [l_subs l_type l_flags subs_toks app] in *.
+      rewrite <- !app_assoc in *. cbn [app] in *.
+      set (rest := gsub_toks U F r (l + subs_dl [s] + 1) ++ [tk TEOF [] e]) in *.
+      set (t0 := tk TEOL [10] (l + subs_dl [s])) in *.
+      assert (Hcont : forall lk', parse_loop F endl (S fu) (acc ++ [lk']) (t0 :: rest) = POk (acc ++ lk' :: r, [])).
+      { intros lk'. destruct fu as [|fu']; [exfalso; unfold rest, t0 in *; clear - Hf; fuel_tac|].
+        change (parse_loop F endl (S (S fu')) (acc ++ [lk']) (t0 :: rest))
+          with (parse_loop F endl (S fu') (acc ++ [lk']) rest).
+        unfold rest. rewrite IH; auto; [rewrite <- app_assoc; reflexivity|].
+        unfold rest, t0 in *. clear - Hf. fuel_tac. }
+      assert (Hf' : forall X, (length (flag_toks fl l ++ X ++ t0 :: rest) < S (S fu))%nat ->
+                              (length (flag_toks fl l ++ X ++ t0 :: rest) < S (S fu))%nat) by auto.
+      destruct s as [cov delta|cov subst|cov repl|cov alts|cov repl|cov adj|cov adj]; try discriminate;
+        cbn [sub_type] in *; cbn [parse_loop]; unfold bind at 1; cbn [read ttyp tval];
+        [ change (list_eqb (k_GSUB ++ digits 1) k_GSUB1) with true
+        | change (list_eqb (k_GSUB ++ digits 1) k_GSUB1) with true
+        | change (list_eqb (k_GSUB ++ digits 2) k_GSUB1) with false;
+          change (list_eqb (k_GSUB ++ digits 2) k_GSUB2) with true
+        | change (list_eqb (k_GSUB ++ digits 3) k_GSUB1) with false;
+          change (list_eqb (k_GSUB ++ digits 3) k_GSUB2) with false;
+          change (list_eqb (k_GSUB ++ digits 3) k_GSUB3) with true
+        | change (list_eqb (k_GSUB ++ digits 4) k_GSUB1) with false;
+          change (list_eqb (k_GSUB ++ digits 4) k_GSUB2) with false;
+          change (list_eqb (k_GSUB ++ digits 4) k_GSUB3) with false;
+          change (list_eqb (k_GSUB ++ digits 4) k_GSUB4) with true ];
+        cbv iota; unfold bind at 1.
+      + rewrite read_gsub1_1_ok; auto; [apply Hcont|]. unfold rest, t0 in *. clear - Hf. fuel_tac.
+      + rewrite read_gsub1_2_ok; auto; [apply Hcont|]. unfold rest, t0 in *. clear - Hf. fuel_tac.
+      + rewrite read_gsub2_ok; auto; [apply Hcont|]. unfold rest, t0 in *. clear - Hf. fuel_tac.
+      + rewrite read_gsub3_ok; auto; [apply Hcont|]. unfold rest, t0 in *. clear - Hf. fuel_tac.
+      + rewrite read_gsub4_ok; auto; [apply Hcont|]. unfold rest, t0 in *. clear - Hf. fuel_tac.
+  Qed.
+
+  Lemma gpos_head : forall lk l, gpos_lookup_wf F lk = true ->
+    lookup_toks U F k_GPOS lk l = tk TIdent k_GPOS1 l :: tl (lookup_toks U F k_GPOS lk l).
+  Proof.
+    intros lk l W. unfold gpos_lookup_wf in W. split_wf W.
+    destruct lk as [ty fl subs]. cbn [l_type l_flags l_subs] in *.
+    match goal with Hx : (ty =? 1) = true |- _ => apply N.eqb_eq in Hx; subst ty end.
+    destruct subs; [discriminate|]. reflexivity.
+  Qed.
+
+  Lemma gpos_parse_ok : forall ll l fuel acc e,
+    Forall (fun lk => gpos_lookup_wf F lk = true) ll ->
+    (length (gpos_toks U F ll l ++ [tk TEOF [] e]) < fuel)%nat ->
+    exists ts', parse_loop F endl fuel acc (gpos_toks U F ll l ++ [tk TEOF [] e]) = POk (acc ++ ll, ts').
+  Proof.
+    induction ll as [|lk r IH]; intros l fuel acc e H Hf.
+    - destruct fuel; [cbn in Hf; lia|]. cbn. rewrite app_nil_r. eexists. reflexivity.
+    - inversion H as [|? ? Hlk Hr]; subst.
+      destruct fuel as [|[|fu]]; try (cbn in Hf; fuel_tac).
+      destruct r as [|lk2 r'].
+      + cbn [gpos_toks] in *. rewrite (gpos_head lk l Hlk) in *. cbn [app parse_loop].
+        unfold bind at 1. cbn [read ttyp tval].
+        change (list_eqb k_GPOS1 k_GSUB1) with false. change (list_eqb k_GPOS1 k_GSUB2) with false.
+        change (list_eqb k_GPOS1 k_GSUB3) with false. change (list_eqb k_GPOS1 k_GSUB4) with false.
+        change (list_eqb k_GPOS1 k_GSUB5) with false. change (list_eqb k_GPOS1 k_GSUB6) with false.
+        change (list_eqb k_GPOS1 k_GPOS1) with true. cbv iota.
+        destruct (read_gpos1_ok lk l (S (S fu)) [tk TEOF [] e] Hlk) as (ts' & Er & En).
+        * repeat split; reflexivity.
+        * rewrite (gpos_head lk l Hlk). clear - Hf. fuel_tac.
+        * unfold bind at 1. rewrite Er. cbn [parse_loop]. unfold bind at 1.
+          destruct (read_unread ts') as [R _]. rewrite R.
+          rewrite (peek_typ_same ts' [tk TEOF [] e] En). cbn [peek_tok ttyp]. unfold ret. eauto.
+      + assert (Eg : gpos_toks U F (lk :: lk2 :: r') l
+                     = lookup_toks U F k_GPOS lk l ++ [tk TEOL [10] (l + subs_dl (l_subs lk))]
+                         ++ gpos_toks U F (lk2 :: r') (l + subs_dl (l_subs lk) + 1)) by reflexivity.
+        rewrite Eg in *. clear Eg. rewrite (gpos_head lk l Hlk) in *. rewrite <- !app_assoc in *. cbn [app] in *.
+        set (rest := gpos_toks U F (lk2 :: r') (l + subs_dl (l_subs lk) + 1) ++ [tk TEOF [] e]) in *.
+        cbn [parse_loop]. unfold bind at 1. cbn [read ttyp tval].
+        change (list_eqb k_GPOS1 k_GSUB1) with false. change (list_eqb k_GPOS1 k_GSUB2) with false.
+        change (list_eqb k_GPOS1 k_GSUB3) with false. change (list_eqb k_GPOS1 k_GSUB4) with false.
+        change (list_eqb k_GPOS1 k_GSUB5) with false. change (list_eqb k_GPOS1 k_GSUB6) with false.
+        change (list_eqb k_GPOS1 k_GPOS1) with true. cbv iota.
+        destruct (read_gpos1_ok lk l (S (S fu)) (tk TEOL [10] (l + subs_dl (l_subs lk)) :: rest) Hlk) as (ts' & Er & En).
+        * repeat split; reflexivity.
+        * rewrite (gpos_head lk l Hlk). unfold rest in *. clear - Hf. fuel_tac.
+        * rewrite norm_cons_ne in En by reflexivity. apply norm_eq_cons in En. subst ts'.
+          unfold bind at 1. rewrite Er.
+          destruct fu as [|fu']; [exfalso; unfold rest in *; clear - Hf; fuel_tac|].
+          change (parse_loop F endl (S (S fu')) (acc ++ [lk]) (tk TEOL [10] (l + subs_dl (l_subs lk)) :: rest))
+            with (parse_loop F endl (S fu') (acc ++ [lk]) rest).
+          destruct (IH (l + subs_dl (l_subs lk) + 1) (S fu') (acc ++ [lk]) e Hr) as (ts'' & E2).
+          -- unfold rest in *. clear - Hf. fuel_tac.
+          -- exists ts''. unfold rest. rewrite <- app_assoc in E2. exact E2.
   Qed.
 End Parse.
+
+(* ------------------------------------------------------------------ *)
+(* The round trip                                                      *)
+
+Lemma end_line_app : forall ts t, end_line (ts ++ [t]) = tline t.
+Proof. intros. unfold end_line. rewrite last_opt_app. reflexivity. Qed.
+
+Theorem parse_explain_gsub : forall U F ll,
+  font_wf U F = true -> Forall (fun lk => gsub_lookup_wf F lk = true) ll ->
+  M_parse U F (M_explain_gsub U F ll) = POk ll.
+Proof.
+  intros U F ll HF Hll. unfold M_parse. rewrite (ProofsExplain.lex_explain_gsub U F HF ll Hll).
+  unfold M_parse_tokens. rewrite (gsub_parse_ok U F HF); auto. 
+Qed.
+
+Theorem parse_explain_gpos : forall U F ll,
+  font_wf U F = true -> Forall (fun lk => gpos_lookup_wf F lk = true) ll ->
+  M_parse U F (M_explain_gpos U F ll) = POk ll.
+Proof.
+  intros U F ll HF Hll. unfold M_parse. rewrite (ProofsExplain.lex_explain_gpos U F HF ll Hll).
+  unfold M_parse_tokens.
+  destruct (gpos_parse_ok U F HF (end_line (gpos_toks U F ll 1 ++ [tk TEOF [] (1 + gpos_dl ll)])) ll 1
+              (S (S (length (gpos_toks U F ll 1 ++ [tk TEOF [] (1 + gpos_dl ll)])))) [] (1 + gpos_dl ll) Hll)
+    as (ts' & E); [lia|]. rewrite E. reflexivity.
+Qed.
